@@ -17,7 +17,7 @@ RULE = (
     "subset of the declared entries, an undeclared key raised FixedDictKeyError and left the dictionary unchanged, the content "
     "equals a plain-dict model, copy/unpickled objects are equal and of the same type; non-trivial = history with >= 1 undeclared key"
 )
-BOUNDS = {"quick": "6 types x 4 constructor variants x all histories of up to 3 operations out of 18 operation instances",
+BOUNDS = {"quick": "6 types x 4 constructor variants x all histories of up to 3 operations out of 18-19 operation instances (incl. an underscore-prefixed declared entry where the type has one)",
           "thorough": "6 types x 4 constructor variants x all histories of up to 4 operations"}
 OUTSIDE = "longer histories; dict methods not named in the property (e.g. fromkeys)"
 ASSUMPTIONS = ["values are small integers; keys are the type's first two declared names and one undeclared name"]
@@ -44,7 +44,7 @@ def tasks(tier, seed):
     return out
 
 
-def _ops(k1, k2, bad):
+def _ops(k1, k2, bad, ku=None):
     """Operation instances: (name, function(dict-like) -> result or None, keys touched)."""
     def setitem(k, v):
         return ("setitem %s" % k, lambda d: d.__setitem__(k, v), {k: v})
@@ -61,6 +61,9 @@ def _ops(k1, k2, bad):
            ("update kwargs bad", lambda d: d.update(**{bad: 13}), None),
            ("ior", "ior", {k1: 14}), ("ior bad", "ior", {k2: 15, bad: 16}), ("ior pairs bad", "ior", [(bad, 17)]),
            ("or", "or", {k2: 18}), ("copy", "copy", None), ("pickle", "pickle", None), ("delete", "del", k1)]
+    if ku is not None:
+        # a declared entry whose name starts with an underscore ("hidden" bookkeeping entries): must survive copy / pickle too
+        ops.append(setitem(ku, 19))
     return ops
 
 
@@ -170,7 +173,8 @@ def _run(ti, cv, choose, nops, report):
     names = list(cls.entry_objs)
     k1, k2 = names[0], names[1]
     bad = "not_a_declared_key"
-    ops = _ops(k1, k2, bad)
+    hidden = [n for n in names if n.startswith("_")]
+    ops = _ops(k1, k2, bad, hidden[0] if hidden else None)
     model = {}
     try:
         if cv == 0:
